@@ -55,6 +55,26 @@ class StabWorld(ip.World):
                 return False
         raise ip.AnalysisError("comparison of unrelated strings %r / %r (not f's result against f's argument)" % (a.tag, b.tag))
 
+    # lengths: equal strings have equal lengths; different strings may or may not (both are explored)
+    def str_len(self, st, s):
+        if isinstance(s, ip.Str):
+            return ip.Sym(("len", s.tag), "usize")
+        return ip.Top("usize")
+
+    def compare_hook(self, st, op, a, b):
+        la = a.name if isinstance(a, ip.Sym) and isinstance(a.name, tuple) and a.name and a.name[0] == "len" else None
+        lb = b.name if isinstance(b, ip.Sym) and isinstance(b.name, tuple) and b.name and b.name[0] == "len" else None
+        if la is None or lb is None:
+            return None
+        if la[1] == lb[1]:
+            c = 0
+        else:
+            key = tuple(sorted([repr(la[1]), repr(lb[1])]))
+            c = st.choose(("len-order",) + key, [0, -1, 1])
+            if repr(la[1]) > repr(lb[1]):
+                c = -c
+        return {"Eq": c == 0, "Ne": c != 0, "Lt": c < 0, "Le": c <= 0, "Gt": c > 0, "Ge": c >= 0}[op]
+
     def enum_variants(self, ty):
         if ty.endswith("!opaque"):
             raise ip.AnalysisError("f's error value is inspected (it must be passed through unchanged)")
